@@ -15,7 +15,7 @@ import ast
 from dataclasses import dataclass, field
 
 from .ctx import Ctx
-from .loader import FuncInfo, call_name, norm
+from .loader import FuncInfo, call_name, tnorm as norm
 
 MUTATORS = {"append", "extend", "insert", "pop", "remove", "clear", "sort", "reverse", "update", "setdefault",
             "popitem", "add", "discard", "__setitem__", "__delitem__"}
